@@ -30,3 +30,19 @@ check("C08", GATE + "; MULT: for-all scan structure of the badfilter filter; COV
 check("C09", GATE + "; ITER/TYFLOW/WIRE rules on the rewrite filter",
       "Static verdict: no shrink-while-index-iterating; every returned value passed the filter deleting exception rules; decision tables of the exception matcher and remover equal the statement on all valuations; rewrite values never compared by interface ==; only order-preserving operations; in-place operations on the fresh slice only; every exception applied by a complete scan of a complete exception list.",
       TB + "slices.DeleteFunc order preservation and reflect.DeepEqual semantics are library contracts.", "DESIGN.md section 4, C09")
+
+check("C15", GATE + "; IDX contract of the cosmetic lookup table",
+      "Static verdict: every emitted cosmetic rule is on the true edge of CosmeticRule.Match(rule, hostname) and the false edge of the exception test for that hostname/rule; the domain table is probed with the hostname and all parent domains, wildcard-TLD rules are scanned and never exact-keyed, every permitted domain is keyed; CSS/generic flag gating; generic/specific filing by the rule; exceptions keyed and looked up by content; every element-hiding rule reaches the table.",
+      TB + "Accepted probe idioms: loop-carried strings.Cut tail or a range over a suffix enumerator (other spellings: undecided, fail closed).", "DESIGN.md section 4, C15")
+check("C17", GATE + "; final field values by store forwarding compared with the documented derivation",
+      "Static verdict on the derivation of request fields (all inputs): 4 KiB cap before derivation, URLLowerCase = ToLower(URL), hostnames = extractor(capped URL), Domain = eTLD+1 else hostname, ThirdParty table, hostname requests; the hand-written eTLD+1 has exactly the decision table of publicsuffix.EffectiveTLDPlusOne.",
+      TB + "NOT decided (value-level, the core of the property): equality of filterutil.ExtractHostname with net/url on the stated URL shapes; the PSL data itself is the library's.", "DESIGN.md section 4, C17")
+check("C18", GATE + "; tokenizer scans evaluated on all 256 byte values; cut arithmetic on constants",
+      "Static verdict: comment cut is line[:index('#')]; the three tokenizer scans agree with the blank set {space, tab} on every byte value and are chained (token = s[i1:i2], remainder = s[i3:]); every token becomes a name; bare domain gives the unspecified IPv4; HostRule.Match is true iff some name equals the query; dispatch order cosmetic > hosts > network with the blank-before-marker exemption; DNS engine re-validates host-table hits.",
+      TB + "Not decided: address parsing (netip) and domain-name validation (value-level).", "DESIGN.md section 4, C18")
+check("C19", GATE + "; nil-guard (NIL) and who-may-write rules",
+      "Static verdict: typed retrieval helpers return nil on error with comma-ok assertions; every use of a retrieved rule at every call site lies on the non-nil edge; returned rules are re-validated (subset); cache consulted first, list only on a miss, cache written only by the retrieval insert (never cleared); Seek/line-reader errors propagate; no unchecked assertion, panic or Must* on the retrieval path.",
+      TB + "Not decided: operating-system behaviour on closed descriptors (assumed to be an error return).", "DESIGN.md section 4, C19")
+check("C20", GATE + "; splice partition and loop bound evaluated on constants; marker table",
+      "Static verdict: new text is body[:i]+tag+body[i:] with one body and one i = finder(body), unchanged iff i == -1, tag inserted once; Latin-1 decode/encode pairing; response body, Content-Length and Content-Encoding removal refer to the final bytes; the finder is an ascending first-hit scan over min(window, len(body)) with the four documented markers applied to the unmodified body; the matcher is bounds-guarded and case-folding.",
+      TB + "Not decided: bijectivity of the Latin-1 transcoder and gzip (library).", "DESIGN.md section 4, C20")
